@@ -73,7 +73,7 @@ class Topo:
 
     @staticmethod
     def is_trigger(conn):
-        return conn.get("dattr") == "ti"
+        return conn.get("dattr") in ("ti", "ti2")
 
     @staticmethod
     def is_persistent(conn):
@@ -81,6 +81,28 @@ class Topo:
 
     def data_conns(self):
         return [(i, c) for i, c in enumerate(self.conns) if c.get("sattr")]
+
+    def group_reentry(self):
+        """Is there a group G with a weak connection inside and two simulators of G that are
+        connected by a path through a simulator outside G?  (structural classifier of F21)"""
+        import networkx as nx
+        g = nx.DiGraph()
+        g.add_nodes_from(self.sims)
+        for c in self.conns:
+            g.add_edge(c["src"], c["dst"])
+        for w in self.conns:
+            if not w.get("weak"):
+                continue
+            d = self.common_depth(w["src"], w["dst"])
+            if d < 2:
+                continue
+            prefix = self.gpath(self.sims[w["src"]].get("group"))[:d]
+            inside = {s for s in self.sims if self.gpath(self.sims[s].get("group"))[:d] == prefix}
+            outside = set(self.sims) - inside
+            for o in outside:
+                if any(nx.has_path(g, p, o) for p in inside) and any(nx.has_path(g, o, q) for q in inside):
+                    return True
+        return False
 
     # -- reference cycle check (C06) -------------------------------------------
     def hop_resolves(self, conn, cycle_sims):
